@@ -13,7 +13,8 @@ SHARDED = True
 def cat_values():
     x, y, z = cat.Ob('x'), cat.Ob('y'), cat.Ob(3)
     f, g, h = cat.Box('f', x, y), cat.Box('g', y, z, data=[1, {'a': 2}]), cat.Box('f', x, y, data=7)
-    falsy = [cat.Box('f', x, y, data=d) for d in (0, [], {}, ())]   # pairwise unequal falsy payloads (0 == 0.0 == False are outside the repr-faithful precondition)
+    falsy = [cat.Box('f', x, y, data=d) for d in (0, [], {}, ())]
+    falsy += [cat.Box('f', x, y, data=d) for d in ('a', '', 'ab', ('x', 1))]      # string payloads   # pairwise unequal falsy payloads (0 == 0.0 == False are outside the repr-faithful precondition)
     vals = falsy + [x, y, z, cat.Ob('x'), f, g, h, f.dagger(), g.dagger(), cat.Box('f', x, y), cat.Id(x), cat.Id(y),
             f >> g, cat.Arrow(x, y, [f]), cat.Arrow(x, z, [f, g]), f >> f.dagger(), (f >> g).dagger(),
             cat.Id(x) >> f, f + h, cat.Sum([f, h]), cat.Sum([h, f]), cat.Sum([], x, y), cat.Sum([f]),
@@ -34,11 +35,14 @@ def monoidal_values():
     vals = falsy + [Ty(), x, y, x @ y, Ty('x', 'y'), Ty(1), PRO(2), PRO(0), Ty(1, 1), f, g, s, f.dagger(), Swap(x, y), Swap(y, x),
             Box('f', x, y @ y), Id(x), Id(Ty()), Id(x @ y), f @ g, f >> g @ g, Diagram(x, y @ y, [f], [0]),
             f + f, Sum([f]), Sum([], x, y), f @ s, s @ f,
-            Sum((f, f)), f.bubble(), Box('f', x, y @ y, data=0).bubble(), f.bubble(dom=x @ x, cod=y), (f >> g @ g).bubble(),
+            Sum((f, f)), f.bubble(), Box('f', x, y @ y, data='label'),
+            # layers are boxes of the layer view: equal exactly when left, box and right are
+            (Id(x) @ f).layers.boxes[0], (Id(x) @ Box('g', x, y @ y)).layers.boxes[0], (f @ Id(x)).layers.boxes[0],
+            (Id(x) @ f).layers.boxes[0], Box('f', x, y @ y, data=0).bubble(), f.bubble(dom=x @ x, cod=y), (f >> g @ g).bubble(),
             f.bubble() >> g @ g] + D[:40]
     from discopy.monoidal import Bubble
     ns = {'Ty': Ty, 'Box': Box, 'Id': Id, 'Diagram': Diagram, 'Swap': Swap, 'Sum': Sum, 'PRO': PRO, 'Ob': cat.Ob,
-          'Bubble': Bubble}
+          'Bubble': Bubble, 'Layer': monoidal.Layer}
     return vals, ns
 
 
@@ -57,6 +61,8 @@ def rigid_values():
 
 def structural_key(v):
     """the data the property says equality is determined by"""
+    if isinstance(v, monoidal.Layer):
+        return ('L', repr(v._left), repr(v._box), repr(v._right))
     if isinstance(v, cat.Sum):
         return ('Sum', repr(v.dom), repr(v.cod), tuple(structural_key(t) for t in v.terms))
     if isinstance(v, monoidal.Diagram):
